@@ -1,6 +1,7 @@
 package main
 
 import (
+	"strconv"
 	"fmt"
 	"os"
 	"slices"
@@ -91,6 +92,18 @@ func checkC07(ctx *Ctx) {
 				n = r.Range(9, 64)
 			case r.Chance(15):
 				n = r.Range(2, 6)
+			}
+			// long lists, with lengths on both sides of the sizes at which implementations switch
+			// strategy (insertion sort below 12, chunking, "parallel above N"): powers of two and
+			// every length-like constant the tree under check has and the pinned tree has not
+			if li == 2 || li == 5 {
+				longLens := []int{62, 63, 64, 65, 66, 67, 127, 129, 130, 255, 257}
+				for _, s := range newIntsFor("cmd") {
+					if v, err := strconv.Atoi(s); err == nil && v >= 4 && v <= 1500 {
+						longLens = append(longLens, v-1, v, v+1, v+2, v+3, 2*v+1)
+					}
+				}
+				n = longLens[(r.Intn(len(longLens))+li)%len(longLens)]
 			}
 			var list []string
 			// family lists: a window of the pool in generation order — spelling variants, prefix
@@ -269,6 +282,9 @@ func checkC07(ctx *Ctx) {
 			if li%3 == 0 {
 				bad := invalid[r.Intn(len(invalid))]
 				pos := r.Intn(n + 1)
+				if n > 16 && r.Chance(50) {
+					pos = n // the last argument of a long list
+				}
 				in := append(append(append([]string{}, list[:pos]...), bad), list[pos:]...)
 				firstBad := bad
 				cases = append(cases, cliCase{e: e, argv: append([]string{e.Name, "sort"}, in...), bad: firstBad, group: -1})
